@@ -8,7 +8,7 @@
 (*   (b) prints one JSON record per expanded state: the oracle data the    *)
 (*       Rust replayer compares the real library against.                  *)
 (***************************************************************************)
-EXTENDS Text, Json
+EXTENDS Text, RulesImpl, Json
 
 CONSTANTS
   Family,     \* which set of start positions (see Stages / RootFens)
@@ -58,6 +58,13 @@ StageSquares(i, b) ==
            [] i = 4 -> IF Family = "EPb" THEN Squares ELSE (IF Sub = 0 THEN {0, 7, 56, 63, 34, 37} ELSE {0, 63})
            [] i = 5 -> AlignedWith({s - 16 : s \in Where(b, "p")} \cup Where(b, "P")))
     [] Family = "CASTLE" -> IF i <= 6 THEN {<<4, 0, 7, 60, 56, 63>>[i]} ELSE Squares
+    [] Family \in {"EP2w", "EP2b"} ->  \* two capturers flanking the pusher, a slider aligned with them (built for White pushing; EP2b is its mirror)
+        (CASE i = 1 -> RankSet(1) \cap FilesOf(IF Sub = 0 THEN 1..6 ELSE {((Sub - 1) % 6) + 1})       \* P on files b..g
+           [] i = 2 -> {t \in RankSet(3) : \E q \in Where(b, "P") : FileOf(t) = FileOf(q) - 1}          \* p left
+           [] i = 3 -> {t \in RankSet(3) : \E q \in Where(b, "P") : FileOf(t) = FileOf(q) + 1}          \* p right
+           [] i = 4 -> AlignedWith(Where(b, "p"))                                                       \* k
+           [] i = 5 -> {0, 63}                                                                          \* K
+           [] i = 6 -> AlignedWith(Where(b, "p") \cup {q + 16 : q \in Where(b, "P")}))                 \* white slider
     [] Family = "EPALLw" ->     \* every file: White pushes, Black captures, kings on a few far squares
         (CASE i = 1 -> RankSet(1)
            [] i = 2 -> {t \in RankSet(3) : \E q \in Where(b, "P") : Abs(FileOf(q) - FileOf(t)) = 1}
@@ -90,6 +97,7 @@ StageMen ==
     [] Family = "KPK7b" -> << {"k"}, {"K"}, {"p"} >>
     [] Family = "EPw" -> << {"P"}, {"p"}, {"k"}, {"K"} >>
     [] Family = "EPb" -> << {"p"}, {"P"}, {"K"}, {"k"} >>
+    [] Family \in {"EP2w", "EP2b"} -> << {"P"}, {"p"}, {"p"}, {"k"}, {"K"}, {"R","B","Q"} >>
     [] Family = "EPALLw" -> << {"P"}, {"p"}, {"k"}, {"K"} >>
     [] Family = "EPALLb" -> << {"p"}, {"P"}, {"K"}, {"k"} >>
     [] Family = "EPXw" -> << {"P"}, {"p"}, {"k"}, {"K"}, {"R","B","Q"} >>
@@ -102,10 +110,10 @@ StageMen ==
     [] OTHER -> << >>
 NStages == Len(StageMen)
 
-MirroredFamilies == {"PINb"}     \* built with White's men, then colour-mirrored
+MirroredFamilies == {"PINb", "EP2b"}     \* built with White's men, then colour-mirrored
 
 StmChoices ==
-  CASE Family \in {"EPw","EPXw","EPALLw"} -> {"w"}
+  CASE Family \in {"EPw","EPXw","EPALLw","EP2w","EP2b"} -> {"w"}
     [] Family \in {"EPb","EPXb","EPALLb"} -> {"b"}
     [] Family \in {"PINw","PINb"} -> {"w"}
     [] OTHER -> {"w","b"}
@@ -153,7 +161,10 @@ RootFens == <<
   "n1n5/PPPk4/8/8/8/8/4Kppp/5N1N b - - 0 1",
   "r3k2r/pppppppp/8/8/8/8/PPPPPPPP/R3K2R w KQkq - 0 1",
   "8/3k4/8/8/8/8/3K4/R6r w - - 0 1",
-  "6k1/5ppp/8/8/8/8/5PPP/R5K1 w - - 0 1"
+  "6k1/5ppp/8/8/8/8/5PPP/R5K1 w - - 0 1",
+  "7R/kp6/p7/P1P5/8/8/6B1/6K1 b - - 0 1",        \* ...b5 cxb6 e.p. is mate
+  "8/6p1/7k/7P/7K/7P/8/6r1 b - - 0 1",           \* ...g5+ and hxg6 e.p. is the only reply
+  "4k3/8/8/8/1pPp4/8/8/4K3 b - c3 0 1"           \* two capturers for one en-passant square
 >>
 RootSet ==
   LET idx  == IF Sub = 0 THEN 1..Len(RootFens) ELSE {((Sub - 1) % Len(RootFens)) + 1}
@@ -262,7 +273,8 @@ Lemma1(p, ms) ==
 
 Lemma2(p, ms) ==
   LET q == Mirror(p)
-  IN /\ LegalMoves(q) = {MirrorMv(m) : m \in ms}
+  IN /\ ImplLegal(p) = ms                                            \* C01: the library's algorithm is right by design
+     /\ LegalMoves(q) = {MirrorMv(m) : m \in ms}
      /\ Checkers(q) = {MirrorSq(s) : s \in Checkers(p)}
      /\ Pinned(q) = {MirrorSq(s) : s \in Pinned(p)}
      /\ Valid(q)
@@ -279,7 +291,7 @@ LemmasOK(p, ms) ==
   /\ (Lemmas >= 2) => Assert(Lemma2(p, ms), <<"spec lemma 2 (mirror/flip) fails at", WriteFen(p)>>)
 
 FirstPly(p, ms) ==   \* EP families: the first ply is the double push of the staged pawn
-  IF depth = 0 /\ Family \in {"EPw","EPb","EPXw","EPXb","EPALLw","EPALLb"} THEN {m \in ms : IsDouble(p, m)} ELSE ms
+  IF depth = 0 /\ Family \in {"EPw","EPb","EPXw","EPXb","EPALLw","EPALLb","EP2w","EP2b"} THEN {m \in ms : IsDouble(p, m)} ELSE ms
 
 Play ==
   /\ stage = Done
